@@ -4,6 +4,7 @@ import (
 	"fmt"
 	"go/constant"
 	"go/token"
+	"go/types"
 	"strings"
 
 	"golang.org/x/tools/go/ssa"
@@ -449,6 +450,121 @@ func checkC05(c *Ctx) {
 	// ---- C05.6 the two sites that decide the direction agree: halfPipe derives "upload" from its tag, Proxy chooses the
 	// tags - the pipe that reads from the client must be the one halfPipe takes for the upload, the other one not
 	// ---- C05.7 the relay's close is never abortive: SetLinger(0) makes Close discard what was written but not yet sent
+	// ---- C05.9 a direction that moves data keeps the whole session alive: the two pipes share both connections, and the
+	// pipe that is idle (a one-way upload or download) sits in a Read on this pipe's destination whose deadline only
+	// this pipe refreshes. After every forwarded chunk the read deadline of the source AND both deadlines of the
+	// destination are pushed out (SetDeadline, or the read/write pair), on every path back to the next Read.
+	r.Rule("C05.9", "each forwarded chunk refreshes the read deadline of the source and the read and write deadlines of the destination", 1)
+	if hp != nil {
+		var rd, wr *ssa.Call
+		nR, nW := 0, 0
+		eachInstr(hp, func(in ssa.Instruction) {
+			if call, ok := in.(*ssa.Call); ok && call.Call.IsInvoke() {
+				switch call.Call.Method.Name() {
+				case "Read":
+					rd = call
+					nR++
+				case "Write":
+					wr = call
+					nW++
+				}
+			}
+		})
+		if nR == 1 && nW == 1 {
+			src, dst := pathOf(recvOf(&rd.Call)), pathOf(recvOf(&wr.Call))
+			need := []struct {
+				conn string
+				ms   []string
+				what string
+			}{
+				{src, []string{"SetDeadline", "SetReadDeadline"}, "read deadline of the source"},
+				{dst, []string{"SetDeadline", "SetReadDeadline"}, "read deadline of the destination"},
+				{dst, []string{"SetDeadline", "SetWriteDeadline"}, "write deadline of the destination"},
+			}
+			var missing []string
+			for _, nd := range need {
+				nd := nd
+				refresh := func(in ssa.Instruction) bool {
+					call, ok := in.(*ssa.Call)
+					if !ok || !call.Call.IsInvoke() || pathOf(call.Call.Value) != nd.conn {
+						return false
+					}
+					for _, m := range nd.ms {
+						if call.Call.Method.Name() == m {
+							return true
+						}
+					}
+					return false
+				}
+				// from the Write, can the next Read be reached without that refresh?
+				if hit, _ := reach(hp, wr, isInstr(rd), refresh, nil); hit {
+					missing = append(missing, nd.what)
+				}
+			}
+			r.Check(len(missing) == 0, "C05.9", "halfPipe: stall timeout refreshed for both connections after each forwarded chunk", wr.Pos(), fnName(hp),
+				"no path from Write back to Read avoids SetDeadline / the read-write pair on "+src+" and "+dst,
+				"after a forwarded chunk the "+strings.Join(missing, ", ")+" is not pushed out: the opposite pipe, idle in a one-way transfer, times out on its stale deadline and the healthy session is torn down mid-stream (the rest of the stream is lost)")
+		} else {
+			r.Unk("C05.9", "halfPipe: one Read and one Write", hp.Pos(), fnName(hp), "relay loop not identified")
+		}
+	}
+
+	// ---- C05.10 the open-session gauge is a count, not an epoch statistic: it moves by +1 / -1 in addSession /
+	// removeSession only; nothing stores into it and nothing overwrites the statistics object as a whole
+	r.Rule("C05.10", "the session gauge is changed only by the +1 / -1 of addSession / removeSession", 2)
+	{
+		nAdd := 0
+		for _, f := range c.funcsOfPkgs("pkg/station/lib") {
+			for _, ff := range withAnon(f) {
+				eachInstr(ff, func(in ssa.Instruction) {
+					switch x := in.(type) {
+					case *ssa.Call:
+						name := calleeName(&x.Call)
+						if !strings.HasPrefix(name, "sync/atomic.") || len(x.Call.Args) == 0 {
+							return
+						}
+						if _, fld, ok := fieldOwner(x.Call.Args[0]); !ok || fld != "sessionsProxying" {
+							return
+						}
+						switch {
+						case strings.HasSuffix(name, ".LoadInt64"):
+						case strings.HasSuffix(name, ".AddInt64"):
+							cv, isC := constOf(x.Call.Args[1])
+							okd := isC && (cv.ExactString() == "1" || cv.ExactString() == "-1")
+							nAdd++
+							r.Check(okd, "C05.10", fnName(ff)+": sessionsProxying moves by one", x.Pos(), fnName(ff), "atomic.AddInt64(±1)", "the session gauge is changed by something other than +1 / -1")
+						default:
+							r.Bad("C05.10", fnName(ff)+": "+shortName(name)+" on sessionsProxying", x.Pos(), fnName(ff), "the open-session gauge is overwritten (epoch reset?): sessions that are still open drop out of it and their removeSession drives it negative - the reported count no longer equals the sessions being relayed")
+						}
+					case *ssa.Store:
+						if _, fld, ok := fieldOwner(x.Addr); ok && fld == "sessionsProxying" {
+							if al, isA := x.Addr.(*ssa.FieldAddr).X.(*ssa.Alloc); isA && freshRoot(al, ff) {
+								return
+							}
+							r.Bad("C05.10", fnName(ff)+": plain store to sessionsProxying", x.Pos(), fnName(ff), "the open-session gauge is overwritten")
+							return
+						}
+						// *s = ProxyStats{...}: the whole object, gauge included
+						pt, isP := x.Addr.Type().Underlying().(*types.Pointer)
+						if !isP || typeShort(pt.Elem()) != "lib.ProxyStats" {
+							return
+						}
+						if al, isA := x.Addr.(*ssa.Alloc); isA && freshRoot(al, ff) {
+							return
+						}
+						if _, isG := x.Addr.(*ssa.Global); isG && passedToOnce(ff) {
+							return // the once-only initialiser of the singleton
+						}
+						r.Bad("C05.10", fnName(ff)+": overwrites the whole ProxyStats object", x.Pos(), fnName(ff), "re-initialising the statistics object zeroes the open-session gauge together with the epoch counters: sessions still open drop out of it and their removeSession drives it negative")
+					}
+				})
+			}
+		}
+		if nAdd < 2 {
+			r.Unk("C05.10", "addSession / removeSession", token.NoPos, "", fmt.Sprintf("expected the +1 and the -1 of the gauge, found %d AddInt64 call(s)", nAdd))
+		}
+	}
+
 	r.Rule("C05.7", "no relay connection is closed with a zero linger interval", 1)
 	{
 		n := 0
@@ -812,4 +928,33 @@ func staticClosure(roots []*ssa.Function, keep func(*ssa.Function) bool) []*ssa.
 		visit(f)
 	}
 	return out
+}
+
+// passedToOnce: f is only ever used as the argument of (*sync.Once).Do.
+func passedToOnce(f *ssa.Function) bool {
+	if f.Pkg == nil {
+		return false
+	}
+	used, onlyOnce := false, true
+	for _, m := range f.Pkg.Members {
+		g, ok := m.(*ssa.Function)
+		if !ok {
+			continue
+		}
+		for _, gg := range withAnon(g) {
+			eachInstr(gg, func(in ssa.Instruction) {
+				for _, op := range in.Operands(nil) {
+					if *op != ssa.Value(f) {
+						continue
+					}
+					used = true
+					ci, isCall := in.(ssa.CallInstruction)
+					if !isCall || calleeName(ci.Common()) != "(*sync.Once).Do" || ci.Common().Value == ssa.Value(f) {
+						onlyOnce = false
+					}
+				}
+			})
+		}
+	}
+	return used && onlyOnce
 }
